@@ -99,6 +99,13 @@ def bay_groups(rng, n_cases):
         for k in range(nt):
             b.add_tstiff2d(ys=1.0, bb=0.5, bf=0.25, bstack=[0, 90], bplyt=0.125, blaminaprop=lp,
                            fstack=[90, 0], fplyt=0.125, flaminaprop=lp, mb=2, nb=2, mf=2, nf=3)
+        # descriptions from what was asked for (before any evaluation can touch the objects)
+        pdskin = pd_from_panel(b.panels[0])
+        pdskin["y2"] = pdskin["b"]
+        region_pds = {}
+        for si, s in enumerate(b.stiffeners):
+            for region, pan in ([("flange", s.flange)] if s in b.bladestiff2ds else [("base", s.base), ("flange", s.flange)]):
+                region_pds[(si, region)] = pd_from_panel(pan, model="plate")
         b.calc_k0(silent=True)
         size = b.get_size()
         cg = [Fraction(rng.randint(-16, 16), 32) for _ in range(size)]
@@ -114,8 +121,6 @@ def bay_groups(rng, n_cases):
 
         xs = np.array([0., 0.5, 2., 1.25, 0.75])
         ys = np.array([0., 0.375, 1.5, 0.75, 1.125])
-        pdskin = pd_from_panel(b.panels[0])
-        pdskin["y2"] = pdskin["b"]
         record(pdskin, 0, b.uvw_skin(c, xs=xs, ys=ys), xs, ys, "skin")
         off = skin
         for si, s in enumerate(b.stiffeners):
@@ -127,8 +132,7 @@ def bay_groups(rng, n_cases):
                 xs2 = np.array([0., 1., 2., 0.25])
                 ys2 = np.array([0., pan.b, pan.b / 2, pan.b / 4])
                 res = b.uvw_stiffener(c, si, region=region, xs=xs2, ys=ys2)
-                pdp = pd_from_panel(pan, model="plate")
-                record(pdp, off, res, xs2, ys2, "stiffener %d %s" % (si, region))
+                record(region_pds[(si, region)], off, res, xs2, ys2, "stiffener %d %s" % (si, region))
                 off += pan.get_size()
     return out
 
